@@ -553,10 +553,11 @@ pub fn e2e_case(seed: u64, l: &mut Local) {
         return;
     }
     let Some(chan) = chan else { return };
-    let resolved: Vec<&mdns_sd::ResolvedService> = w.trace.obs(chan).filter_map(|(_, o)| if let Obs::Resolved(r) = o { Some(&**r) } else { None }).collect();
+    let resolved: Vec<mdns_sd::ResolvedService> = w.trace.obs(chan).filter_map(|(_, o)| if let Obs::Resolved(r) = o { Some((**r).clone()) } else { None }).collect();
     l.act("Y4");
     l.distinct.insert(util::fnv_str(&format!("e2e|n{}|dup{}|nov{}|emptyv{}|late{late_browse}", truth.len().min(8), truth.len() != list.len(), truth.iter().any(|(_, v)| v.is_none()), truth.iter().any(|(_, v)| v.as_ref().is_some_and(|v| v.is_empty())))));
-    let wit = |got: &[Item]| json!({"given": show(&list), "expected": show(&truth), "reported": show(got), "learned_from": if late_browse { "answer to the browse query" } else { "announcement" }, "trace": scen::witness(&w.trace, 12)});
+    let first_trace = scen::witness(&w.trace, 12);
+    let wit = |got: &[Item]| json!({"given": show(&list), "expected": show(&truth), "reported": show(got), "learned_from": if late_browse { "answer to the browse query" } else { "announcement" }, "trace": first_trace});
     let Some(last) = resolved.last() else {
         l.violate(Violation::new("Y4", "Y4/never-resolved", "the browsing daemon never resolved the service").with(wit(&[])));
         return;
@@ -566,6 +567,28 @@ pub fn e2e_case(seed: u64, l: &mut Local) {
         if let Some(why) = compare(&truth, &got, true) {
             let class = if got.len() != truth.len() { "count" } else if got.iter().zip(truth.iter()).any(|(g, t)| g.0 != t.0) { "key-or-order" } else if got.iter().zip(truth.iter()).any(|(g, t)| g.1.is_none() != t.1.is_none()) { "none-vs-empty" } else { "value-bytes" };
             l.violate(Violation::new("Y4", format!("Y4/reported-properties-differ/{class}"), format!("the browser reports other properties than were registered: {why}")).with(wit(&got)));
+            return;
+        }
+    }
+    // the service is registered again with properties that differ in letter case only (keys and text values):
+    // other bytes are other properties, the browser has to be told
+    let flip = |b: &[u8]| -> Vec<u8> { b.iter().map(|c| if c.is_ascii_lowercase() { c.to_ascii_uppercase() } else { c.to_ascii_lowercase() }).collect() };
+    let list2: Vec<Item> = truth.iter().map(|(k, v)| (String::from_utf8(flip(k.as_bytes())).unwrap_or_else(|_| k.clone()), v.as_ref().map(|v| flip(v)))).collect();
+    if list2 != truth && rng.chance(1, 2) {
+        let mut reg2 = World::reg_info("_t._udp.local.", "txt", "txthost.local.", &addrs, 80, &[]);
+        reg2.txt = list2.clone();
+        reg2.requires_probe = rng.chance(1, 2);
+        if w.register(a, reg2) {
+            w.run_for(4000);
+            l.act("Y4-update");
+            let after: Vec<&mdns_sd::ResolvedService> = w.trace.obs(chan).filter_map(|(_, o)| if let Obs::Resolved(r) = o { Some(&**r) } else { None }).collect();
+            let got = after.last().map(|r| props_to_items(&r.txt_properties)).unwrap_or_default();
+            if compare(&list2, &got, true).is_some() {
+                l.violate(
+                    Violation::new("Y4", "Y4/update-not-reported/differs-in-letter-case-only", "the service was registered again with keys and values in another letter case; the browser still shows the earlier bytes")
+                        .with(json!({"first": show(&truth), "second": show(&list2), "reported_last": show(&got), "trace": scen::witness(&w.trace, 14)})),
+                );
+            }
             return;
         }
     }
